@@ -16,7 +16,8 @@ import (
 // adversary controls what Fetch returns for up to `budget` objects during the restart and the next
 // round: not found, an older version / another object, fresh arbitrary bytes of the same length, or a
 // truncation. target restricts the tampered key class: 0 any, 1 checkpoint, 2 hash tiles, 3 data tile,
-// 4 staging bundle (lock ahead of storage), 5 issuer. The log may refuse to load or stop; if it signs
+// 4 staging bundle (lock ahead of storage), 5 issuer, 6 hash tiles with the lock ahead of storage,
+// 7 data tile and hash tile tampered consistently (certificate bytes / whole tile symbolic) with the lock ahead. The log may refuse to load or stop; if it signs
 // a new checkpoint, that checkpoint extends exactly the committed tree by the acknowledged entries.
 func VerifC08Tamper(n0, budget, target, positions int) {
 	c08Positions = positions
@@ -31,7 +32,7 @@ func VerifC08Tamper(n0, budget, target, positions int) {
 	ctx := context.Background()
 	issuerSub := verifPending("withissuer", 2, 1, false)
 	f0, _ := l.addLeafToPool(ctx, issuerSub, false)
-	if target == 4 {
+	if target == 4 || target == 6 || target == 7 {
 		// crash right after the lock commit: the next start must replay the staging bundle
 		w.onStep = func(i *vInstance, op, key string) {
 			if op == "upload" && len(key) > 5 && key[:5] == "tile/" {
@@ -41,7 +42,7 @@ func VerifC08Tamper(n0, budget, target, positions int) {
 	}
 	l.sequence(ctx)
 	w.onStep = nil
-	if target != 4 {
+	if target != 4 && target != 6 && target != 7 {
 		if _, err := f0(ctx); err != nil {
 			panic("setup round failed")
 		}
@@ -52,7 +53,7 @@ func VerifC08Tamper(n0, budget, target, positions int) {
 	committed := w.lockHist[len(w.lockHist)-1]
 	truthN := committed.n
 	var truth [][32]byte
-	if target == 4 {
+	if target == 4 || target == 6 || target == 7 {
 		leaves, ok := w.readLeaves(truthN - 1)
 		if !ok {
 			panic("ground truth unreadable")
@@ -88,7 +89,29 @@ func VerifC08Tamper(n0, budget, target, positions int) {
 		case len(key) > 7 && key[:7] == "issuer/":
 			class = 5
 		}
-		if !found || remaining == 0 || tampered[key] || (target != 0 && class != target) || class == 0 {
+		want := target
+		if target == 6 {
+			want = 2 // hash tiles, with the lock ahead of storage
+		}
+		if target == 7 {
+			// consistent tampering of the right-edge data tile and hash tile, with the lock ahead of storage
+			if !found || remaining == 0 || tampered[key] || (class != 2 && class != 3) {
+				return data, found
+			}
+			remaining--
+			tampered[key] = true
+			if class == 2 {
+				verifTrace("TAMPER arbitrary bytes " + key)
+				return verifNondetBytes("hashtile", len(data)), true
+			}
+			// keep the framing of the data tile, replace the certificate bytes of its last entry
+			verifTrace("TAMPER certificate bytes in " + key)
+			out := append([]byte{}, data...)
+			off := len(out) - (2 + 32) - 10 - 2 // fingerprints, extension, then the 2 certificate bytes
+			copy(out[off:off+2], verifNondetBytes("certbytes", 2))
+			return out, true
+		}
+		if !found || remaining == 0 || tampered[key] || (want != 0 && class != want) || class == 0 {
 			return data, found
 		}
 		switch verifChoice("tamper", 5) {
